@@ -26,6 +26,7 @@ EXPLANATION = (
     "give 0 and nothing is NaN or infinite. Quick runs associativity up to the third moment; thorough adds the fourth "
     "(5.4k-term numerator). Not decided: the magnitude of float32 accumulation error. "
     "Since F42/F50: third and higher powers of a count are taken in floating point in the merge kernel (R2), and an operand with count 0 does not take part in the merged extremes (R3)."
+    ' Since F60: the derived statistics equal the textbook forms as canonical expressions and raise a stored float32 moment to a power only after converting it to float64 (R4); a product of counts is never materialised as an integer array of its own (R2).'
 )
 K = "sigpyproc.core.kernels"
 STATS = "sigpyproc.core.stats"
